@@ -54,7 +54,7 @@ package stream
 //@   let sealing = old(sealingOn(s))
 //@   let ctr0 = old(s.encryptCounter)
 //@   let ivlen = ite(ctr0 == 0, 16, 0)
-//@   ensures passthrough: !sealing ==> err == nil && result == data && sealCount == old(sealCount) && s.encryptCounter == ctr0 && s.finishedSendAAD == old(s.finishedSendAAD)
+//@   ensures passthrough: !sealing ==> err == nil && result == data && sealCount == old(sealCount) && s.encryptCounter == ctr0 && s.finishedSendAAD == old(s.finishedSendAAD) && s.finalSendDigest == old(s.finalSendDigest) && s.finalRecvDigest == old(s.finalRecvDigest)
 //@   ensures ctr_refuse: sealing && ctr0 == 4294967295 ==> err != nil
 //@   ensures err_nochange: err != nil ==> s.encryptCounter == ctr0 && sealCount == old(sealCount)
 //@   ensures ctr_step: sealing && err == nil ==> s.encryptCounter == ctr0 + 1 && ctr0 < 4294967295 && sealCount == old(sealCount) + 1
@@ -70,7 +70,7 @@ package stream
 //@   ensures result_fresh: sealing && err == nil ==> fresh(result)
 //@   ensures new_digests_fresh: (old(s.finalSendDigest) == nil && s.finalSendDigest != nil ==> fresh(s.finalSendDigest)) && (old(s.finalRecvDigest) == nil && s.finalRecvDigest != nil ==> fresh(s.finalRecvDigest))
 
-//@ pred wireLimit(keyed) = 1048576
+//@ pred wireLimit(keyed) = 1048576 + ite(keyed, 32, 0)
 //@ pred ivLenAt(ctr) = ite(ctr == 0, 16, 0)
 
 //@ func (*Stream).decryptDataWithAAD
@@ -81,7 +81,7 @@ package stream
 //@   let opening = old(sealingOn(s))
 //@   let ctr0 = old(s.decryptCounter)
 //@   let ivlen = ite(ctr0 == 0, 16, 0)
-//@   ensures passthrough: !opening ==> err == nil && result == data && openCount == old(openCount) && openOKCount == old(openOKCount) && s.decryptCounter == ctr0 && s.finishedRecvAAD == old(s.finishedRecvAAD)
+//@   ensures passthrough: !opening ==> err == nil && result == data && openCount == old(openCount) && openOKCount == old(openOKCount) && s.decryptCounter == ctr0 && s.finishedRecvAAD == old(s.finishedRecvAAD) && s.finalSendDigest == old(s.finalSendDigest) && s.finalRecvDigest == old(s.finalRecvDigest)
 //@   ensures auth_gate: opening && err == nil ==> openOKCount == old(openOKCount) + 1 && openObj == s.gcm && str(result) == openPT
 //@   ensures err_nodata: err != nil ==> result == nil && s.decryptCounter == ctr0 && openOKCount == old(openOKCount)
 //@   ensures ctr_step: opening && err == nil ==> s.decryptCounter == (ctr0 + 1) % 4294967296
@@ -106,6 +106,7 @@ package stream
 //@   assigns data, rdCount, rdTotal, rdLast, rdFail, ctxClock, afCtx, afCount
 //@   ensures read_ok: err == nil ==> rdCount == old(rdCount) + 1 && rdTotal == old(rdTotal) + len(data) && rdLast == str(data) && rdFail == old(rdFail)
 //@   ensures read_fail: err != nil ==> rdCount <= old(rdCount) + 1
+//@   ensures fail_class: err != nil ==> rdFail == old(rdFail) + 1 || (rdCount == old(rdCount) + 1 && ctxErrAt(ctx, ctxClock) != nil) || (ctxClock == old(ctxClock) && ctxErrAt(ctx, ctxClock) != nil)
 
 //@ func (*Stream).sendMessageWithEnd
 //@   props C01 C12 C04
@@ -131,3 +132,46 @@ package stream
 //@   ensures digest_covers_wire: [C04] err == nil && old(s.sendDigest != nil && s.finalSendDigest == nil) && !sealing ==> s.sendDigestWritten && hashWrites == old(hashWrites) + ite(len(data) > 0, 2, 1)
 //@   ensures digest_frozen_after: [C04] old(s.finalSendDigest) != nil ==> hashWrites == old(hashWrites) && s.finalSendDigest == old(s.finalSendDigest)
 //@   ensures wf_kept: digestsWF(s) && buffersSeparate(s)
+
+//@ func (*Stream).maxWireLength
+//@   props C01
+//@   pure
+//@   ensures limit: result == wireLimit(s.gcm != nil)
+
+//@ func (*Stream).ReceiveFrameWithEnd (s, ctx) (result, endFlag, err)
+//@   props C02 C01 C04 C13
+//@   requires wf: digestsWF(s)
+//@   assigns s.finishedRecvAAD, s.finalSendDigest, s.finalRecvDigest, s.decryptCounter, s.decryptIV, s.recvDigestWritten, openCount, openNonce, openAAD, openCT, openObj, openPT, openOKCount, hashWrites, rdCount, rdTotal, rdLast, rdFail, ctxClock, afCtx, afCount
+//@   let opening = old(sealingOn(s))
+//@   let ctr0 = old(s.decryptCounter)
+//@   let ivlen = ite(ctr0 == 0, 16, 0)
+//@   ensures auth_gate: [C02] err == nil && opening ==> openOKCount == old(openOKCount) + 1 && openObj == s.gcm && str(result) == openPT
+//@   ensures aad_binds_header: [C02 C12] err == nil && opening ==> len(openAAD) == ite(old(s.finishedRecvAAD), 5, 69) && openAAD[len(openAAD) - 5] == endFlag && be32(openAAD, len(openAAD) - 4) == len(openCT) + ivlen
+//@   ensures aad_digests: [C04 C12] err == nil && opening && !old(s.finishedRecvAAD) ==> forall i :: 0 <= i && i < 32 ==> openAAD[i] == s.finalRecvDigest[i] && openAAD[32+i] == s.finalSendDigest[i]
+//@   ensures nonce_position: [C02 C12] err == nil && opening ==> len(openNonce) == 16 && (forall i :: 4 <= i && i < 16 ==> openNonce[i] == s.decryptIV[i]) && be32(openNonce, 0) == (be32(s.decryptIV, 0) + ctr0) % 4294967296
+//@   ensures ctr_step: [C02] (err == nil && opening ==> s.decryptCounter == (ctr0 + 1) % 4294967296) && (err != nil || !opening ==> s.decryptCounter == ctr0)
+//@   ensures err_nodata: [C02] err != nil ==> result == nil && endFlag == 0 && openOKCount == old(openOKCount)
+//@   ensures flag_range: err == nil ==> endFlag <= 10
+//@   ensures plain_is_wire: [C01] err == nil && !opening ==> openCount == old(openCount) && (len(result) == 0 ==> rdCount == old(rdCount) + 1) && (len(result) > 0 ==> rdCount == old(rdCount) + 2 && str(result) == rdLast)
+//@   ensures reject_justified: [C01] err != nil && rdFail == old(rdFail) && rdCount == old(rdCount) + 1 && ctxErrAt(ctx, ctxClock) == nil ==> be32(rdLast, 1) > wireLimit(old(s.gcm) != nil) || rdLast[0] > 10 || (be32(rdLast, 1) == 0 && opening)
+//@   ensures consumed: [C13] err == nil ==> rdTotal == old(rdTotal) + 5 + len(result) + ite(opening, 16 + ivlen, 0)
+//@   ensures digest_covers_wire: [C04] err == nil && old(s.recvDigest != nil && s.finalRecvDigest == nil) && !opening ==> s.recvDigestWritten && hashWrites == old(hashWrites) + ite(len(result) > 0, 2, 1)
+//@   ensures digest_frozen_after: [C04] old(s.finalRecvDigest) != nil ==> hashWrites == old(hashWrites) && s.finalRecvDigest == old(s.finalRecvDigest)
+//@   ensures wf_kept: digestsWF(s)
+
+//@ func (*Stream).ReceiveFrame (s, ctx) (result, err)
+//@   props C02 C01 C04 C13
+//@   requires wf: digestsWF(s)
+//@   assigns s.finishedRecvAAD, s.finalSendDigest, s.finalRecvDigest, s.decryptCounter, s.decryptIV, s.recvDigestWritten, openCount, openNonce, openAAD, openCT, openObj, openPT, openOKCount, hashWrites, rdCount, rdTotal, rdLast, rdFail, ctxClock, afCtx, afCount
+//@   let opening = old(sealingOn(s))
+//@   let ctr0 = old(s.decryptCounter)
+//@   let ivlen = ite(ctr0 == 0, 16, 0)
+//@   ensures auth_gate: [C02] err == nil && opening ==> openOKCount == old(openOKCount) + 1 && openObj == s.gcm && str(result) == openPT
+//@   ensures aad_binds_header: [C02 C12] err == nil && opening ==> len(openAAD) == ite(old(s.finishedRecvAAD), 5, 69) && be32(openAAD, len(openAAD) - 4) == len(openCT) + ivlen
+//@   ensures ctr_step: [C02] (err == nil && opening ==> s.decryptCounter == (ctr0 + 1) % 4294967296) && (err != nil || !opening ==> s.decryptCounter == ctr0)
+//@   ensures err_nodata: [C02] err != nil ==> result == nil && openOKCount == old(openOKCount)
+//@   ensures reject_justified: [C01] err != nil && rdFail == old(rdFail) && rdCount == old(rdCount) + 1 && ctxErrAt(ctx, ctxClock) == nil ==> be32(rdLast, 1) > wireLimit(old(s.gcm) != nil) || rdLast[0] > 10 || (be32(rdLast, 1) == 0 && opening)
+//@   ensures consumed: [C13] err == nil ==> rdTotal == old(rdTotal) + 5 + len(result) + ite(opening, 16 + ivlen, 0)
+//@   ensures digest_covers_wire: [C04] err == nil && old(s.recvDigest != nil && s.finalRecvDigest == nil) && !opening ==> s.recvDigestWritten && hashWrites == old(hashWrites) + ite(len(result) > 0, 2, 1)
+//@   ensures digest_frozen_after: [C04] old(s.finalRecvDigest) != nil ==> hashWrites == old(hashWrites) && s.finalRecvDigest == old(s.finalRecvDigest)
+//@   ensures wf_kept: digestsWF(s)
